@@ -118,6 +118,39 @@ pub fn pair_sweeps(tier: Tier) -> Vec<Sweep> {
                     let (b_text, b) = &terms[(idx % n) as usize];
                     count!("evaluations");
                     count!("pairs");
+                    if idx / n == idx % n {
+                        // On the diagonal: the weak-head normal form the checker computes for the body of
+                        // the term, under the binders of the term, is a reduct of it — put back under the
+                        // binders it must be convertible with the term in the reference. (unify normalises
+                        // both sides with the same normaliser, so a rule that rebuilds a stuck term
+                        // wrongly cancels out there.)
+                        let (blocks, body) = crate::props::c18::peel(a, 3);
+                        let (_, mut dc) = crate::props::c18::materialise(&blocks);
+                        let base = dc.len();
+                        let rb = to_real(&body, &mut Default::default());
+                        match bind::guard(|| crate::normalizer::normalize_weak_head(&rb, &mut dc)) {
+                            Err(m) => violation("normalize-panic", a_text, "a weak-head normal form", &m),
+                            Ok(nf) => {
+                                let nf = crate::model::mterm::mirror(&nf);
+                                if dc.len() != base {
+                                    violation("context-not-restored", a_text, &format!("{base} entries"), &format!("{}", dc.len()));
+                                }
+                                match typing::convertible_closed(a, &crate::props::c18::wrap_term(&blocks, &nf), sem::TYPING_FUEL) {
+                                    Conv::Equal => {
+                                        count!("whnf_is_a_reduct");
+                                        count!("traces_validated");
+                                    }
+                                    Conv::Unknown => count!("skipped_fuel"),
+                                    Conv::Different => violation(
+                                        "weak-head-normal-form-is-not-a-reduct",
+                                        a_text,
+                                        &format!("normalize_weak_head of the body, under the binders of the term, convertible with the body: {}", body.show()),
+                                        &nf.show(),
+                                    ),
+                                }
+                            }
+                        }
+                    }
                     let want = typing::convertible_closed(a, b, sem::TYPING_FUEL);
                     if want == Conv::Unknown {
                         count!("skipped_fuel");
